@@ -22,6 +22,8 @@ func init() {
 
 func runC07(p *eng.Prog, r *eng.Report, tier string) {
 	c := &cx{p, r, tier}
+	importRules(c, "C06", []string{"C06.6"}, "C07.26")
+	r19ExpiredDeadlineClearedByItsSetter(c, "C07.27")
 	r18RoutersOnlyForStanzas(c, "C07.25")
 	r18EncoderNamespaceIsTheOutputs(c, "C07.24")
 	c.r.Floor("C07.23", "error edges of stanza parses in the multiplexer", r17FailedParseResultUnused(c, "C07.23"), 1)
